@@ -65,6 +65,17 @@ _mc("C14", "explicit-state BFS over generate/skip histories of real Jakes genera
     "84 configurations (Fd x Ts x L x shape) x every generate(n)/skip(n) history up to depth 3 (thorough 5) with skips up to 1e10 samples: shape, Jakes sum-of-sinusoids value at the model position with the generator's own phases, differential against one-request generation from an identically seeded twin, Fd=0 constancy, magnitude bound.",
     "Trusted: Jakes formula with phases read back from the object; value checks whose stated timing tolerance exceeds sqrt(L) are excluded and counted.")
 
+_e1("C02", "Every (fft, cp, used) triple on the integer grid incl. invalid neighbours (must raise ValueError) through constructor and set_parameters; every valid configuration (fft 2..8 all, 16, (64,16,52); thorough 2..24 and 32/64/128) x six input lengths: round trip with zero padding, output length, bit-exact cyclic prefix, no energy on DC/guard bins by an O(N^2) reference DFT; every 1-3 tap delay subset of {0..cp} x power tuples x 3 seeded static realisations through a real TdlChannel: one-tap equalisation with the REPORTED impulse response recovers the symbols.",
+    "Trusted: O(N^2) DFT, direct-sum frequency response with aliasing. Realisations with a spectral null (min|H|<1e-3) are excluded and counted (none occurred).")
+_e1("C17", "Every 1-2 (thorough 3) entry parameter dictionary over a 42-value alphabet (Python/numpy scalars of every width, strings, nested lists, sets, 1-3D arrays incl. empty) x every unpack subset x every unpacked child x targets (JSON string, pickle, files via save_to_file with templates); all four result types x update histories x accumulate; file-name determinism and injectivity over 35 scalars: library ==, independent field-by-field diff, save(load(x)) fixpoint.",
+    "Trusted: field-by-field diff written in the check. dtype changes with exact values are recorded as outcomes, not violations.")
+_mc("C06", "explicit-state enumeration of every update/merge program over small observation alphabets on real Result / SimulationResults objects against a sufficient-statistics reference",
+    "Every term of E ::= new | E.update(o) | E.merge(E) over every observation sequence of length <= 4 (thorough 5) for all four result types and both accumulate settings (a superset of every contiguous partition x every association order), set-level merge_all_results/append_all_results programs incl. empty accumulators and left folds, union-level combine_simulation_results over 49 ordered subset pairs: value, total, update count, mean, variance against the reference and against one object fed the whole sequence; every merged-in operand is re-compared with its snapshot after every merge.",
+    "Trusted: sufficient-statistics reference model. X.merge_all_results(empty) (KeyError) is treated as out of domain.")
+_mc("C08", "explicit-state BFS over operation histories of real MultiUserChannelMatrix / ExtInt objects with scripted randomness and whole-object digest keys",
+    "From each initialiser, every history up to depth 3 (thorough 4) over 20-27 events (randomize / init_from_channel_matrix with swapped unequal antenna layouts, set_pathloss incl. None and external-interference path loss, noise_var, set_post_filter, cache-populating reads of every view, both corrupt_data entry points) is replayed on a fresh real object; in every state every view (H, big_H, get_Hkl, get_Hk, big_H_no_ext_int, H_no_ext_int, get_Hk_without_ext_int) and both transmissions (output = W^H(big_H x + last_noise), last_noise = scripted draw x sqrt(noise_var), None iff noise_var None) are compared with a matrix reference model; wrong views are classified (stale path loss / stale layout expansion / stale channel).",
+    "Trusted: the reference model (raw matrix x sqrt(block path loss)); K=2, square post filters, fixed number of external sources per history.")
+
 NOT_YET = {}
 
 
